@@ -20,6 +20,7 @@ import (
 	"mellium.im/xmpp"
 	"mellium.im/xmpp/component"
 	"mellium.im/xmpp/jid"
+	"mellium.im/xmpp/s2s"
 	"mellium.im/xmpp/websocket"
 	"verif.sim/simrt"
 	"verif.sim/simrt/simnet"
@@ -217,7 +218,7 @@ func exchange(s *xmpp.Session, name xml.Name, ack string, mask xmpp.SessionState
 	return mask, nil, nil
 }
 
-var hsKinds = []string{"plain", "tls", "s2s", "ws", "component", "volfail", "volparse"}
+var hsKinds = []string{"plain", "tls", "s2s", "ws", "component", "volfail", "volparse", "bidi", "bidionly"}
 
 // HS is one handshake under simulation.
 type HS struct {
@@ -314,6 +315,38 @@ func (h *HS) Start() {
 			return xmpp.NewSession(h.C.ctx, origin.Domain(), origin, h.rw(h.C), 0, neg(cfs))
 		})
 		h.run(h.S, func() (*xmpp.Session, error) { return xmpp.ReceiveSession(h.S.ctx, h.rw(h.S), 0, neg(sfs)) })
+	case "bidi", "bidionly":
+		// a server-to-server initiator that asks for a bidirectional stream (XEP-0288, a voluntary feature that expects no
+		// answer) before the mandatory feature - or as the only thing there is to negotiate
+		cfs := cf(s2s.Bidi(), finFeature(nil))
+		st := xmpp.S2S | xmpp.Secure
+		h.run(h.C, func() (*xmpp.Session, error) {
+			return xmpp.NewSession(h.C.ctx, jid.MustParse("b.example"), jid.MustParse("a.example"), h.rw(h.C), st, neg(cfs))
+		})
+		h.S.scripted = true
+		only := h.kind == "bidionly"
+		h.S.task = rc.Spawn("server", func() {
+			out := h.C.conn.Conn.Out()
+			wait := func(site string, sub string) {
+				simrt.WaitUntil(site, func() bool { return bytes.Contains(out.Tap, []byte(sub)) || h.S.ctx.Err() != nil || h.C.done })
+			}
+			wait("bidi:header", "version='1.0'")
+			feats := `<bidi xmlns='urn:xmpp:features:bidi'/><fin xmlns='urn:verif:fin'/>`
+			if only {
+				feats = `<bidi xmlns='urn:xmpp:features:bidi'/>`
+			}
+			if _, err := io.WriteString(h.S.conn, `<?xml version='1.0'?><stream:stream xmlns='jabber:server' xmlns:stream='http://etherx.jabber.org/streams' from='b.example' to='a.example' id='sid7' version='1.0'><stream:features>`+feats+`</stream:features>`); err != nil {
+				h.S.err = err
+			}
+			wait("bidi:request", "urn:xmpp:bidi")
+			if !only {
+				wait("bidi:fin", "</fin>")
+				if h.S.err == nil {
+					_, h.S.err = io.WriteString(h.S.conn, `<fin-ok xmlns='urn:verif:fin'/>`)
+				}
+			}
+			h.S.done, h.S.retStep = true, rc.S.Steps
+		})
 	case "s2s":
 		// ReceiveSession cannot accept an s2s initiator that names itself (the
 		// receiving branch compares the header's from with the still empty
